@@ -80,3 +80,27 @@ Qed.
 (* ... and it is false when the width shrinks: raw 52 at width 2 is 208, raw 53 at width 0 is 53 *)
 Example width_must_not_shrink : differentiate 52 2 0 = 208 /\ differentiate 53 0 0 = 53.
 Proof. split; reflexivity. Qed.
+
+(* The client library (client/client.go): a response (highest value `logical`, count n, width b) is turned into the values of
+   the n waiting callers by  firstLogical = addLogical(logical, -n+1, b)  and, for caller k < n,  addLogical(firstLogical, k, b),
+   where addLogical(l, c, b) = l + c << b.  The k-th caller's value is the (n-1-k)-th value from the top of the answer: the
+   client hands out exactly the n values the answer stands for, each once, lowest first. *)
+Definition add_logical (l c b : Z) : Z := l + Z.shiftl c b.
+Definition client_value (b sfx : Z) (r : rec) (k : Z) : Z * Z :=
+  (gP r, add_logical (add_logical (differentiate (gL r) b sfx) (- gcount r + 1) b) k b).
+
+Lemma add_logical_eq l c b : 0 <= b -> add_logical l c b = l + c * 2 ^ b.
+Proof. intros Hb. unfold add_logical. rewrite Z.shiftl_mul_pow2 by exact Hb. reflexivity. Qed.
+
+Lemma client_value_is_value_of b sfx r k : 0 <= b -> client_value b sfx r k = value_of b sfx r (gcount r - 1 - k).
+Proof.
+  intros Hb. unfold client_value, value_of. f_equal.
+  rewrite !add_logical_eq, !differentiate_eq by exact Hb. ring.
+Qed.
+
+(* two callers of one batch get different values, in caller order *)
+Lemma client_values_increase b sfx r j k : 0 <= b -> j < k -> snd (client_value b sfx r j) < snd (client_value b sfx r k).
+Proof.
+  intros Hb Hjk. rewrite !client_value_is_value_of by exact Hb. apply values_distinct_within; [exact Hb|lia].
+Qed.
+
